@@ -29,12 +29,12 @@ FORBIDDEN = re.compile(r'\b(Admitted|admit|Axiom|Axioms|Parameter|Parameters|Con
 TIE_FOR = {
     'C01': ['TieClasses', 'TieMath', 'TieCacheBody'], 'C02': ['TieClasses', 'TieMath', 'TieCacheBody'],
     'C03': ['TieClasses', 'TieMath', 'TieFormulas', 'TieOrch'], 'C04': ['TieClasses', 'TieMath', 'TieFormulas', 'TieOrch'],
-    'C05': ['TieClasses', 'TieReducers', 'TieRules', 'TieSynth', 'TieSynthAll', 'TieNorm'],
-    'C06': ['TieClasses', 'TieReducers', 'TieMath', 'TieFormulas', 'TieOrch', 'TieRules', 'TieSynth', 'TieSynthAll', 'TieNorm'],
-    'C07': ['TieClasses', 'TieReducers', 'TieMath', 'TieFormulas', 'TieOrch', 'TieRules'],
+    'C05': ['TieClasses', 'TieReducers', 'TieRules', 'TieSynth', 'TieSynthAll', 'TieNorm', 'TieRoute'],
+    'C06': ['TieClasses', 'TieReducers', 'TieMath', 'TieFormulas', 'TieOrch', 'TieRules', 'TieSynth', 'TieSynthAll', 'TieNorm', 'TieRoute'],
+    'C07': ['TieClasses', 'TieReducers', 'TieMath', 'TieFormulas', 'TieOrch', 'TieRules', 'TieRoute'],
     'C08': ['TieReducers', 'TieRules', 'TieNorm'],
     'C09': ['TieCache', 'TieBound', 'TieCacheBody'], 'C10': ['TieWrites'], 'C11': ['TieReducers', 'TieBound', 'TieRules'],
-    'C12': ['TieClasses', 'TieObj'], 'C13': ['TiePublic', 'TieObj'], 'C14': ['TieSets'], 'C15': ['TieOperators'],
+    'C12': ['TieClasses', 'TieObj'], 'C13': ['TiePublic', 'TieObj'], 'C14': ['TieSets', 'TieRoute'], 'C15': ['TieOperators'],
     'C16': ['TieClasses'], 'C17': ['TieClasses', 'TieMath'], 'C18': ['TieSets'],
 }
 
